@@ -24,7 +24,7 @@ META = {
     'bounds': {
         'quick': {'re-entrant nesting depth': 3, 'call pool': 11, 'threads': 2, 'yield points per evaluation': '<= 4', 'schedule vector length': 8,
                   'shared spec objects': '8 kinds (Spec.glom scope=, Spec with own scope, Vars(), Vars(base), Vars(**defaults), empty list / dict literals in argument position, two error classes sharing a __name__) x {A then B, B then A, B nested in A, B in another thread while A is parked}'},
-        'thorough': {'threads': 3, 'schedule vector length': 10},
+        'thorough': {'threads': 3, 'schedule vector length': '10 (6 free switch points for three threads, 8 for two)'},
     },
     'stubs': ['S6: worker threads run untraced (only the schedule is symbolic; data inside workers is concrete)', 'S4 state reset'],
     'outside_claim': ['free-running threads under a minimal switch interval', 'interleavings finer than user-callable granularity '
@@ -482,9 +482,9 @@ def obligations(tier):
             else:
                 obs.append(Ob(schedules, fixed={'w0': w0, 'w1': w1}, pre=sv, name='schedules_%d_%d' % (w0, w1), timeout=1800, path_timeout=60))
     if not q:
-        sv3 = ' and '.join('0 <= s%d <= 2' % i for i in range(7))
+        sv3 = ' and '.join('0 <= s%d <= 2' % i for i in range(6))        # 3^6 schedules per trio (3^7 does not close in 3000 s)
         for trio in ((0, 1, 2), (1, 2, 3), (2, 0, 3)):
-            obs.append(Ob(schedules3, fixed={'w0': trio[0], 'w1': trio[1], 'w2': trio[2], 's7': 0, 's8': 1, 's9': 2}, pre=sv3,
+            obs.append(Ob(schedules3, fixed={'w0': trio[0], 'w1': trio[1], 'w2': trio[2], 's6': 2, 's7': 0, 's8': 1, 's9': 2}, pre=sv3,
                           name='schedules3_%d%d%d' % trio, timeout=3000, path_timeout=60))
     obs.append(Ob(reentrant, fixed={'c0': 0, 'depth': 2, 'c2': 0}, pre='0 <= c1 < %d' % NCALL, twin='reentrant_err', name='reentrant2_0'))
     obs.append(Ob(schedules, fixed={'w0': 0, 'w1': 2, 's6': 0, 's7': 1}, pre=' and '.join('0 <= s%d <= 1' % i for i in range(6)), twin='sched_err', name='schedules_0_2'))
